@@ -309,7 +309,10 @@ impl Mon {
         self.r.max("C12.max_daily_deleverage_withdrawn_usd", total as f64);
         self.r.distinct(&("delev", limit.min(3), (total as f64 / (limit.max(1) as f64) * 4.0) as u64));
         // allow one dollar of rounding slack per withdrawal observed in the window (price band)
-        if limit != 0 && total > limit as u64 + 1 {
+        // the limit and the program's counter are whole dollars in 32 bits: a window total beyond
+        // that range is represented by its maximum (so a limit of u32::MAX cannot be exceeded)
+        let total_repr = total.min(u32::MAX as u64);
+        if limit != 0 && total_repr > limit as u64 + 1 {
             self.r.violate("C12", "C12/Withdraw/deleverage-daily-limit-exceeded", format!("group {}: whole-dollar withdrawals in the window starting {} sum to {} > limit {} (program counter {} -> {})", gk, win_start, total, limit, gp.deleverage_withdraw_window_cache.withdrawn_today, gq.deleverage_withdraw_window_cache.withdrawn_today));
         }
     }
